@@ -75,17 +75,20 @@ def run_case(case, obs=None):
     install.ensure()
     kind = case[0]
     if kind == "blocksize":
-        _, name, via, point, bs = case
+        _, name, via, point, bs = case[:5]
+        withdata = len(case) > 5 and case[5]
         c = S.CLASSES[name]
         valid = bs != 0 or (name == "WriteSame16" and point.get("ndob") == 1) or (
             name in S.ATA_LBA_BYTES and not (point.get("byte_block") and point.get("t_type") and point.get("t_length")))
-        where = "%s(%r, blocksize=%d) via %s" % (name, point, bs, via)
+        where = "%s(%r, blocksize=%d%s) via %s" % (name, point, bs, ", data given" if withdata else "", via)
         if via == "ctor":
             op = CS.get_opcode(*c["tables"][0])
             cls = CS.get_class(name)
             kw = CS.build_kwargs(name, point, blocksize=max(bs, 1), ata_blocksize=bs)
             if "blocksize" in c["extra"]:
                 kw["blocksize"] = bs
+            if withdata:
+                kw["data"] = bytearray(b"\x11" * 512)
             oc = outcome_of(lambda: cls(op, **kw))
             sent = 0
         else:
@@ -97,6 +100,8 @@ def run_case(case, obs=None):
                 kw.pop("blocksize", None) if "blocksize" in c["extra"] else None
                 if name in S.ATA_LBA_BYTES and bs == 0:
                     kw.pop("blocksize", None)
+                if withdata:
+                    kw["data"] = bytearray(b"\x11" * 512)
                 m = FACADE_OF[name]
                 pos = [kw.pop(k) for k in F.ORDER[m]]
                 oc = outcome_of(lambda: getattr(s, m)(*pos, **kw))
@@ -333,9 +338,13 @@ def run_partition(part, tier, seed):
         for point, r in CS.points(name, 1 if name not in S.ATA_LBA_BYTES else 2, 1 << 16):
             for bs in (0, 512):
                 do(["blocksize", name, "ctor", point, bs], nontrivial=bs == 0)
+                if name in S.ATA_LBA_BYTES:
+                    do(["blocksize", name, "ctor", point, bs, 1], nontrivial=bs == 0)        # caller brings the buffer (data=...)
             if r <= 1:
                 for via in ("sgio", "iscsi"):
                     do(["blocksize", name, via, point, 0])
+                    if name in S.ATA_LBA_BYTES:
+                        do(["blocksize", name, via, point, 0, 1])
     elif kind == "opcode":
         for target in ("init_cdb", "TestUnitReady", "Read10", "Inquiry"):
             for v in range(256):
